@@ -102,8 +102,42 @@ def resource_comparisons(ctx):
     ctx.extra['resource_comparisons_checked'] = True
 
 
+def abandoned_setters(rng, n):
+    """directed family: the activity that makes a condition true is abandoned right at that operation - it sits in an
+    until-block whose notification holds already or fires in that very time step, or it is cancelled in that step.  The
+    value was changed, so the waiter must still be woken in that time step."""
+    out = []
+    for _ in range(n):
+        kind = rng.choice(['tracked', 'tracked', 'flag'])
+        d = rng.choice([0, 1, 2])
+        if kind == 'tracked':
+            wait, op = ['cmp', 0, 'ge', 5], rng.choice([['set_tracked', 0, 5], ['add_tracked', 0, 7]])
+        else:
+            wait, op = ['flag', 0], ['set_flag', 0, True]
+        waiter = [['await', wait], ['log', 1]]
+        how = rng.choice(['until-holds', 'until-same-step', 'cancelled'])
+        pre = [['await', ['delay', d]]] if d else []
+        if how == 'until-holds':
+            setter = pre + [['until', 1, rng.choice([['instant'], ['after', 0], ['before', 99]]), [op, ['log', 2]]], ['log', 3]]
+            roots = [waiter, setter]
+        elif how == 'until-same-step':
+            setter = [['until', 1, ['delay', d], [['await', ['delay', d]], op, ['log', 2]]], ['log', 3]] if d else \
+                [['until', 1, ['instant'], [op, ['log', 2]]], ['log', 3]]
+            roots = [waiter, setter]
+        else:
+            setter = [['scope', 1, [['do', 1, 1, ['now'], False, pre + [op, ['log', 2]]], ['await', ['delay', d]], ['cancel', 1, 5],
+                                    ['log', 4]]], ['log', 3]]
+            roots = [waiter, setter]
+        if rng.random() < 0.5:
+            roots.reverse()
+        out.append(('abandoned-setters', dict(start=0, till=None, roots=roots, nflags=1, tracked=[0], nlocks=1, nqueues=1,
+                                              nchans=1, res=[])))
+    return out
+
+
 def run(ctx):
-    machine_prop.run(ctx, FAMILIES, MONITORS, extra_scenarios=revert_family(ctx.rng, ctx.n(80, 1500)))
+    machine_prop.run(ctx, FAMILIES, MONITORS, extra_scenarios=revert_family(ctx.rng, ctx.n(80, 1500)) +
+                     abandoned_setters(ctx.rng, ctx.n(40, 800)))
     resource_comparisons(ctx)
 
 
